@@ -160,10 +160,27 @@ Definition msg := (str * option str * option str)%type.   (* action, specifier, 
 Definition or_empty (o : option str) : str := match o with Some s => s | None => [] end.
 Definition nonempty (s : str) : option str := match s with [] => None | _ => Some s end.
 
-(* encode_msg_frame; the data part arrives as the text json.dumps produced *)
-Definition encode_frame (m : msg) : bytes :=
-  let '(a, s, d) := m in
-  utf8_enc (ustrip (a ++ [32] ++ or_empty s ++ [32] ++ or_empty d)) ++ [EOL].
+(* encode_msg_frame; the data part arrives as the text json.dumps produced.
+   ' '.join(msg).strip() is frame_text; .encode('utf-8') raises UnicodeEncodeError unless every code point is a
+   scalar value (a str can hold lone surrogates: json.loads makes them from the escape \ud800) - encodable;
+   the bytes are encode_frame *)
+Definition frame_text (m : msg) : str :=
+  let '(a, s, d) := m in ustrip (a ++ [32] ++ or_empty s ++ [32] ++ or_empty d).
+Definition encodable (m : msg) : bool := forallb scalar (frame_text m).
+Definition encode_frame (m : msg) : bytes := utf8_enc (frame_text m) ++ [EOL].
+(* None = encode_msg_frame raises *)
+Definition encode_msg (m : msg) : option bytes := if encodable m then Some (encode_frame m) else None.
+
+(* ---------------------------------------------------------------- laws of the text oracles *)
+(* json.dumps with ensure_ascii=True (the default, used by encode_msg_frame) returns printable ASCII only:
+   everything outside ' '..'~' is written as an escape sequence *)
+Definition printable (c : N) : bool := (32 <=? c) && (c <=? 126).
+(* Q: what is demanded of the characters of a data text; action and specifier are str objects made by
+   bytes.decode or constants: scalar values *)
+Definition sstr (s : str) : bool := forallb scalar s.
+Definition sostr (o : option str) : bool := match o with Some s => sstr s | None => true end.
+Definition qostr (Q : N -> bool) (o : option str) : bool := match o with Some s => forallb Q s | None => true end.
+Definition qmsg (Q : N -> bool) (m : msg) : bool := let '(a, s, d) := m in sstr a && sostr s && qostr Q d.
 
 (* get_msg: split at the first EOL *)
 Fixpoint get_msg (bs : bytes) : option (bytes * bytes) :=
@@ -181,6 +198,9 @@ Inductive hres :=
 | HExc.                                      (* raised another Exception *)
 
 Record lorc := { lo_h : hres; lo_err : str }. (* per request line: handler behaviour, JSON text of the error message *)
+
+Definition hres_q (Q : N -> bool) (h : hres) : bool :=
+  match h with HOk d sent => qostr Q d && forallb (qmsg Q) sent | _ => true end.
 
 Record env := {
   e_json : str -> option str;   (* json.loads: None = raised; Some c = a value, named by its canonical dump *)
@@ -310,14 +330,24 @@ Definition add_call (c : option call) (l : list call) : list call :=
 
 Definition frames (ms : list msg) : list bytes := map encode_frame ms.
 
+(* send_reply for a sequence of messages: one frame per message handed to sendall, until a message can not be
+   encoded - the UnicodeEncodeError raised by encode_msg_frame in send_reply is not caught by RequestHandler.handle;
+   result: the frames sent, and whether all messages were sent *)
+Fixpoint send_seq (ms : list msg) : list bytes * bool :=
+  match ms with
+  | [] => ([], true)
+  | m :: r => if encodable m then let '(fs, ok) := send_seq r in (encode_frame m :: fs, ok) else ([], false)
+  end.
+
 Definition process (E : env) (st : conn) (line : bytes) : conn :=
   let '(o, c) := answer E (nline st) line in
   match o with
   | OReply pre r =>
-      {| buf := buf st; nline := S (nline st); out := rev (frames (pre ++ [r])) ++ out st;
-         calls := add_call c (calls st); alive := alive st |}
+      let '(fs, ok) := send_seq (pre ++ [r]) in
+      {| buf := buf st; nline := S (nline st); out := rev fs ++ out st;
+         calls := add_call c (calls st); alive := alive st && ok |}
   | OCrash pre =>
-      {| buf := buf st; nline := S (nline st); out := rev (frames pre) ++ out st;
+      {| buf := buf st; nline := S (nline st); out := rev (fst (send_seq pre)) ++ out st;
          calls := add_call c (calls st); alive := false |}
   end.
 
@@ -345,8 +375,9 @@ Definition feed (E : env) (st : conn) (chunk : bytes) : conn :=
    triggered elsewhere, a log message) sends a message through send_reply, serialised by send_lock *)
 Inductive event := Chunk (b : bytes) | Async (m : msg).
 
+(* a message of another thread that can not be encoded raises in that thread: nothing is sent here *)
 Definition push (st : conn) (m : msg) : conn :=
-  if alive st then
+  if alive st && encodable m then
     {| buf := buf st; nline := nline st; out := encode_frame m :: out st; calls := calls st; alive := alive st |}
   else st.
 
